@@ -760,6 +760,7 @@ package tally
 //@ func (*scopeRegistry).removeWithRLock
 //@   property C07
 //@   requires r != nil && subscopeBucket != nil
+//@   requires @only_closed_scopes_are_retired s != nil && s.closed
 //@   holds subscopeBucket.mu R
 //@   acquires subscopeBucket.mu
 //@   modifies subscopeBucket.s
